@@ -1,5 +1,6 @@
 (** C13 — a diagram shows exactly the events the cost model counts.
-    Statements only; every proof is [exact <lemma of Proofs/BranchesProofs.v>].
+    Statements only; every proof is [exact <lemma of Proofs/BranchesProofs.v>] (the last
+    example, [C13_example_transfer], is a closed instance evaluated in place by the kernel).
 
     Vocabulary.  [S] species tree, [O] object tree with leaf species, [r] a
     reconciliation (a species at every object node), [valid_rec S O r] as in C06: same
@@ -94,3 +95,22 @@ Example C13_example :
   valid_rec S O r /\ exists ops, all_ops S r = Some ops /\ length (loss_species ops) = 2 /\ length (real_adds ops) = 7.
 Proof. exact branches_example. Qed.
 Print Assumptions C13_example.
+
+(* the remaining hypotheses on the same reconciliation: [branches S r = Some out] (one entry
+   per species; hypothesis of C13_branches_spec) and a branch of kind TRANSFER in the dict
+   of a species (hypotheses [In b (branches_at X ops)], [b_kind b = KTr] of
+   C13_transfer_targets): the transfer node O0 at object path [true; true] mapped to R1,
+   whose transferred child is the second one.  Evaluated by the kernel. *)
+Example C13_example_transfer :
+  let S := SNode (SNode SLeaf SLeaf) (SNode SLeaf (SNode SLeaf SLeaf)) in
+  let r := RNode [true] (RLeaf [false; false]) (RNode [true] (RLeaf [false; true])
+                 (RNode [true; true; false] (RLeaf [true; true; false]) (RLeaf [false; true]))) in
+  exists out ops b, branches S r = Some out /\ length out = 9 /\ all_ops S r = Some ops /\
+    In b (branches_at [true; true; false] ops) /\ b_kind b = KTr /\
+    b_id b = ([true; true], 0) /\ b_right b = Some ([true; true; true], 0).
+Proof.
+  simpl. eexists. eexists. eexists.
+  split; [vm_compute; reflexivity|]. split; [reflexivity|]. split; [vm_compute; reflexivity|].
+  split; [vm_compute; right; left; reflexivity|]. repeat split.
+Qed.
+Print Assumptions C13_example_transfer.
